@@ -12,7 +12,7 @@ RELEVANT = {
     "C01": STRUCT | {"count", "value", "ident", "poison", "baddrop", "drops", "frees", "drain", "stray", "out"},
     "C03": STRUCT | {"verdict", "count", "panicked", "seen"},
     "C04": STRUCT | {"count"},
-    "C05": {"layout", "frees", "alloc", "align", "size"},
+    "C05": {"layout", "frees", "alloc", "align", "size", "leak", "drops", "panicked", "baddrop"},
     "C06": STRUCT | {"value", "ident", "contents", "drops", "frees", "drain", "stray", "baddrop", "poison", "panicked", "count"},
     "C07": STRUCT | {"baddrop", "drops", "frees", "drain", "poison", "count", "panicked", "stray", "value", "leak", "exit"},
     "C08": STRUCT | {"verdict", "ncl", "seen", "value", "ident", "count", "stray", "drops", "frees", "panicked", "drain"},
@@ -118,9 +118,19 @@ def graph_replay(prop, tier, name, family, root, modules, cfg_text, nslots, harn
                 pass
         if r.returncode == 2 or line_no is None:
             raise ToolError("harness failed on %s: exit %s\n%s" % (name, r.returncode, r.stdout[-2000:]))
+        # discrepancies recorded before the crash come first: an earlier behaviour may be what corrupted the heap
+        if os.path.exists(summ + ".viol"):
+            for l in open(summ + ".viol"):
+                try:
+                    v = json.loads(l)
+                except ValueError:
+                    continue
+                rel, other, tool = split_errors(prop, v["errors"])
+                if rel:
+                    res["violations"].append({"stage": name, "family": family, "nslots": nslots, "h": v["h"], "x": v["x"], "errors": rel})
         beh = nth_behaviour(out, line_no)
         res["violations"].append({"stage": name, "family": family, "nslots": nslots, "h": beh["h"], "x": beh["x"],
-                                  "errors": ["[crash] the process died (exit %s) while replaying this behaviour" % r.returncode]})
+                                  "errors": ["[crash] the process died (exit %s) while replaying this behaviour (or as a late effect of an earlier one)" % r.returncode]})
         res["evaluations"] = line_no
         return res
     s = json.load(open(summ))
